@@ -284,3 +284,13 @@ _fresh_counter = [0]
 def fresh(prefix, sort):
     _fresh_counter[0] += 1
     return z3.Const('%s!%d' % (prefix, _fresh_counter[0]), sort)
+
+
+# allocation: every object has a fixed birth time; the ghost clock `alloc` advances with each
+# allocation, an object exists iff birth(o) < clock.  (No quantifier is needed to say that the set of
+# allocated objects only grows; a new object differs from every existing one by its birth time.)
+birth = z3.Function('birth', ObjS, IntS)
+
+
+def is_alloc(clock, o):
+    return birth(o) < clock
